@@ -418,6 +418,10 @@ func drawC19(t *rapid.T, cli bool) C19Case {
 	}
 	c.Directives = ds
 	tree := gen.SplitIntoTree(t, gen.Shuffle(t, ds), rapid.SampledFrom([]int{3, 8, 25}).Draw(t, "maxFiles"))
+	if rapid.IntRange(0, 5).Draw(t, "wideNested") == 0 {
+		// many files that each include a further file
+		tree = gen.WideNestedTree(t, gen.Shuffle(t, ds), rapid.IntRange(12, 60).Draw(t, "wideNestedN"))
+	}
 	c.Files, c.Main = tree.Files, tree.Main
 	names := tree.SortedNames()
 	leaf := names[rapid.IntRange(0, len(names)-1).Draw(t, "faultFile")]
